@@ -7,6 +7,7 @@ import (
 	"fmt"
 	"hash/adler32"
 	"hash/crc32"
+	"math"
 	"os"
 	"runtime"
 	"strconv"
@@ -20,7 +21,7 @@ import (
 
 func init() {
 	register(&Prop{ID: "C12", Run: runC12, MinNontrivial: 200, Workers: 8,
-		Rule:        "cases = (configured limit L in {unset=5 MiB, 1, 100, 2 KiB, 64 KiB, 1 MiB}) x (document inflating to exactly L-1, L, L+1, 2L, 10L bytes: a valid message padded by a trailing comment, or minimal well-formed XML when L is too small) x DEFLATE level {0,1,6,9,Huffman-only} x the six inbound entry points (the two unverified decoders always have 5 MiB), plus bombs inflating to max(1000 L, 256 MiB) (1 GiB at the default limit in the thorough tier); oracle: size <= limit => same outcome class and same returned data as the uncompressed twin and never an 'exceeds maximum size' error; size > limit => error; on over-limit inputs the call's runtime.MemStats.TotalAlloc delta <= 8 L + 4 |input| + 2 MiB (quiescent single-goroutine worker) and, for bombs, the worker's VmHWM growth <= 8 L + 4 |input| + 64 MiB; the inflate hook's (length, limit) pairs are reported; non-trivial = DEFLATE stream decoded by the library; distinct by parameter tuple; bombs also in zlib and gzip framing; trailing comments filled with non-UTF-8 bytes; class max-ratio: one-run messages inflating to limit-1 / limit bytes (about 1007:1); class ratio-boundary (inflated length = 2..256 x compressed length); class nested-compression (compressed plaintext inside the ciphertext); white-space-only padding after the root",
+		Rule:        "cases = (configured limit L in {unset=5 MiB, 1, 100, 2 KiB, 64 KiB, 1 MiB}) x (document inflating to exactly L-1, L, L+1, 2L, 10L bytes: a valid message padded by a trailing comment, or minimal well-formed XML when L is too small) x DEFLATE level {0,1,6,9,Huffman-only} x the six inbound entry points (the two unverified decoders always have 5 MiB), plus bombs inflating to max(1000 L, 256 MiB) (1 GiB at the default limit in the thorough tier); oracle: size <= limit => same outcome class and same returned data as the uncompressed twin and never an 'exceeds maximum size' error; size > limit => error; on over-limit inputs the call's runtime.MemStats.TotalAlloc delta <= 8 L + 4 |input| + 2 MiB (quiescent single-goroutine worker) and, for bombs, the worker's VmHWM growth <= 8 L + 4 |input| + 64 MiB; the inflate hook's (length, limit) pairs are reported; non-trivial = DEFLATE stream decoded by the library; distinct by parameter tuple; bombs also in zlib and gzip framing; trailing comments filled with non-UTF-8 bytes; class max-ratio: one-run messages inflating to limit-1 / limit bytes (about 1007:1); class ratio-boundary (inflated length = 2..256 x compressed length); class nested-compression (compressed plaintext inside the ciphertext); white-space-only padding after the root; in every second worker process providers with limits of 64 MiB / 1 TiB / 7 bytes / MaxInt64 have handled messages first",
 		Assumptions: []string{"allocation bound has slack by design (measured 5.1 L + 0.8 MiB on the unchanged tree); within the limit the cost of parsing an accepted document is not asserted", "outcome classes are coarse: accepted / typed error key / signature stage / decode stage"}})
 }
 
@@ -206,6 +207,24 @@ func runC12(c *mon.Ctx) {
 		return int64(m1.TotalAlloc - m0.TotalAlloc), vmHWM() - h0
 	}
 
+	if c.Shard%2 == 1 {
+		// in half of the worker processes, providers with other limits (far above and far below 5 MiB) have handled
+		// messages before anything else happens: one provider's limit is no business of another's, nor of the
+		// provider-less decoders
+		for _, L := range []int64{64 << 20, 1 << 40, 7, math.MaxInt64} {
+			if L == math.MaxInt64 && c.Shard%4 == 1 {
+				continue
+			}
+			sp := mkSP(true, L)
+			doc := baseDoc("sso", true)
+			_, e1 := sp.ValidateEncodedResponse(sim.Encode(doc, sim.RawLevel))
+			_, e2 := sp.ValidateEncodedResponse(sim.Encode(doc, 6))
+			lo := baseDoc("logoutresp", true)
+			_, e3 := sp.ValidateEncodedLogoutResponsePOST(sim.Encode(lo, 9))
+			c.Count("earlier_use_of_other_limits", 1)
+			_, _, _ = e1, e2, e3
+		}
+	}
 	k := 0
 	for _, L := range limits {
 		for _, mult := range []string{"L-1", "L", "L+1", "2L", "10L"} {
